@@ -119,7 +119,7 @@ def parse_kani(text):
     m = re.search(r'(\d+) variables, (\d+) clauses', text)
     if m:
         res['sat_variables'], res['sat_clauses'] = int(m.group(1)), int(m.group(2))
-    res['oom'] = ('Status: ERROR' in text) or ('std::bad_alloc' in text) or ('Out of memory' in text) or ('memory exhausted' in text.lower())
+    res['oom'] = ('Status: ERROR' in text) or ('appears to have run out of memory' in text) or ('std::bad_alloc' in text) or ('Out of memory' in text) or ('memory exhausted' in text.lower())
     res['stubs'] = re.findall(r' - Stub: (.*)', text)
     return res
 
